@@ -89,6 +89,13 @@ pub fn system(req: &Req) -> R<String> {
 		8 => go::<8>(req),
 		31 => go::<31>(req),
 		64 => go::<64>(req),
+		// blocks of more than 256 bytes (a fetch in pieces must still fill every word)
+		65 => go::<65>(req),
+		100 => go::<100>(req),
+		127 => go::<127>(req),
+		128 => go::<128>(req),
+		200 => go::<200>(req),
+		1000 => go::<1000>(req),
 		_ => Err(Bad),
 	}
 }
